@@ -47,7 +47,7 @@ class SentGen:
 
     def leaf(self, scope):
         r = self.rng
-        if self.fo and (scope or r.random() < 0.75):
+        if self.fo and (scope or self.consts) and (scope or r.random() < 0.75):
             terms = list(scope) * 3 + self.consts
             p = r.random()
             if p < self.identity:
